@@ -449,6 +449,10 @@ func genLookupUniverse(t *rapid.T) lookupUniverse {
 		{L: &model.LitSpec{Kind: "float64", F: 0x3ff0000035afe535}}, // 1.0000002
 		{L: &model.LitSpec{Kind: "int64", I: 1 << 55}},
 		{L: &model.LitSpec{Kind: "int64", I: 1<<55 + 1}},
+		// texts that spell predicate ids of the universe (a predicate's partial UUID hashes its id,
+		// a text literal's UUID its text)
+		{L: &model.LitSpec{Kind: "text", S: "p"}},
+		{L: &model.LitSpec{Kind: "text", S: "knows"}},
 		{P: &model.PredSpec{ID: "p"}},
 		{P: &model.PredSpec{ID: "p", Anchor: tsp(base, 0, 0)}},
 		{P: &model.PredSpec{ID: "p", Anchor: tsp(base+86400, 500000000, 0)}},
